@@ -80,3 +80,277 @@ package modeling
 //@     invariant partition: workSize >= 0 && workSize * size <= totalWork && totalWork == m.PrimitiveCount()
 //@     invariant visited: forall k int :: visits(k) == old(visits(k)) + visitedOnce(k, 0, (i == size) ? totalWork : workSize * i)
 //@     invariant forked: forall k int :: forked(k) == visitedOnce(k, 0, (i == size) ? totalWork : workSize * i)
+
+// ---- attribute scans ---------------------------------------------------------------------------------
+
+//@ func Mesh.ScanFloat1Attribute
+//@   props C10
+//@   callback f: effect
+//@   modifies ghost visits
+//@   ensures every_element_once: let n = len(m.v1Data[atr]) in forall k int :: visits(k) == old(visits(k)) + visitedOnce(k, 0, n)
+//@   loop 1:
+//@     invariant bounds: 0 <= $i && $i <= len(data)
+//@     invariant visited: forall k int :: visits(k) == old(visits(k)) + visitedOnce(k, 0, $i)
+
+//@ func Mesh.ScanFloat1AttributeParallelWithPoolSize$1
+//@   props C10
+//@   callback f: effect
+//@   modifies ghost visits
+//@   footprint start .. start + size
+//@   requires 0 <= start && 0 <= size && start + size <= len(data)
+//@   ensures visits_range: forall k int :: visits(k) == old(visits(k)) + visitedOnce(k, start, start + size)
+//@   loop 1:
+//@     invariant bounds: start <= i && i <= end
+//@     invariant visited: forall k int :: visits(k) == old(visits(k)) + visitedOnce(k, start, i)
+
+//@ func Mesh.ScanFloat1AttributeParallelWithPoolSize
+//@   props C10
+//@   forkjoin wg
+//@   callback f: effect
+//@   modifies ghost visits
+//@   requires forall k int :: forked(k) == 0
+//@   ensures every_element_once: let n = len(m.v1Data[atr]) in forall k int :: visits(k) == old(visits(k)) + visitedOnce(k, 0, n)
+//@   loop 1:
+//@     invariant bounds: 0 <= i && i <= size && size >= 2
+//@     invariant partition: workSize >= 0 && workSize * size <= len(data) && data == m.v1Data[atr]
+//@     invariant visited: forall k int :: visits(k) == old(visits(k)) + visitedOnce(k, 0, (i == size) ? len(data) : workSize * i)
+//@     invariant forked: forall k int :: forked(k) == visitedOnce(k, 0, (i == size) ? len(data) : workSize * i)
+
+//@ func Mesh.ScanFloat2Attribute
+//@   props C10
+//@   callback f: effect
+//@   modifies ghost visits
+//@   ensures every_element_once: let n = len(m.v2Data[atr]) in forall k int :: visits(k) == old(visits(k)) + visitedOnce(k, 0, n)
+//@   loop 1:
+//@     invariant bounds: 0 <= $i && $i <= len(data)
+//@     invariant visited: forall k int :: visits(k) == old(visits(k)) + visitedOnce(k, 0, $i)
+
+//@ func Mesh.ScanFloat2AttributeParallelWithPoolSize$1
+//@   props C10
+//@   callback f: effect
+//@   modifies ghost visits
+//@   footprint start .. start + size
+//@   requires 0 <= start && 0 <= size && start + size <= len(data)
+//@   ensures visits_range: forall k int :: visits(k) == old(visits(k)) + visitedOnce(k, start, start + size)
+//@   loop 1:
+//@     invariant bounds: start <= i && i <= end
+//@     invariant visited: forall k int :: visits(k) == old(visits(k)) + visitedOnce(k, start, i)
+
+//@ func Mesh.ScanFloat2AttributeParallelWithPoolSize
+//@   props C10
+//@   forkjoin wg
+//@   callback f: effect
+//@   modifies ghost visits
+//@   requires forall k int :: forked(k) == 0
+//@   ensures every_element_once: let n = len(m.v2Data[atr]) in forall k int :: visits(k) == old(visits(k)) + visitedOnce(k, 0, n)
+//@   loop 1:
+//@     invariant bounds: 0 <= i && i <= size && size >= 2
+//@     invariant partition: workSize >= 0 && workSize * size <= len(data) && data == m.v2Data[atr]
+//@     invariant visited: forall k int :: visits(k) == old(visits(k)) + visitedOnce(k, 0, (i == size) ? len(data) : workSize * i)
+//@     invariant forked: forall k int :: forked(k) == visitedOnce(k, 0, (i == size) ? len(data) : workSize * i)
+
+//@ func Mesh.ScanFloat3Attribute
+//@   props C10
+//@   callback f: effect
+//@   modifies ghost visits
+//@   ensures every_element_once: let n = len(m.v3Data[atr]) in forall k int :: visits(k) == old(visits(k)) + visitedOnce(k, 0, n)
+//@   loop 1:
+//@     invariant bounds: 0 <= $i && $i <= len(data)
+//@     invariant visited: forall k int :: visits(k) == old(visits(k)) + visitedOnce(k, 0, $i)
+
+//@ func Mesh.ScanFloat3AttributeParallelWithPoolSize$1
+//@   props C10
+//@   callback f: effect
+//@   modifies ghost visits
+//@   footprint start .. start + size
+//@   requires 0 <= start && 0 <= size && start + size <= len(data)
+//@   ensures visits_range: forall k int :: visits(k) == old(visits(k)) + visitedOnce(k, start, start + size)
+//@   loop 1:
+//@     invariant bounds: start <= i && i <= end
+//@     invariant visited: forall k int :: visits(k) == old(visits(k)) + visitedOnce(k, start, i)
+
+//@ func Mesh.ScanFloat3AttributeParallelWithPoolSize
+//@   props C10
+//@   forkjoin wg
+//@   callback f: effect
+//@   modifies ghost visits
+//@   requires forall k int :: forked(k) == 0
+//@   ensures every_element_once: let n = len(m.v3Data[atr]) in forall k int :: visits(k) == old(visits(k)) + visitedOnce(k, 0, n)
+//@   loop 1:
+//@     invariant bounds: 0 <= i && i <= size && size >= 2
+//@     invariant partition: workSize >= 0 && workSize * size <= len(data) && data == m.v3Data[atr]
+//@     invariant visited: forall k int :: visits(k) == old(visits(k)) + visitedOnce(k, 0, (i == size) ? len(data) : workSize * i)
+//@     invariant forked: forall k int :: forked(k) == visitedOnce(k, 0, (i == size) ? len(data) : workSize * i)
+
+// ---- attribute modification ----------------------------------------------------------------------------
+// SetFloatNAttribute: fresh map, one key replaced (or removed when the data is empty), everything else
+// is the same object. Serves C10 here; the frame half serves C01/C03.
+
+//@ func Mesh.SetFloat1Attribute
+//@   props C10 C01 C03
+//@   returns r
+//@   ensures fresh_map: fresh(r.v1Data)
+//@   ensures others_same: r.v2Data == m.v2Data && r.v3Data == m.v3Data && r.v4Data == m.v4Data && r.indices == m.indices && r.materials == m.materials && r.topology == m.topology
+//@   ensures entry: len(data) > 0 ==> has(r.v1Data, attr) && r.v1Data[attr] == data
+//@   ensures removed: len(data) == 0 ==> !has(r.v1Data, attr)
+//@   ensures rest: forall k string :: k != attr ==> (has(r.v1Data, k) <==> has(m.v1Data, k)) && (has(m.v1Data, k) ==> r.v1Data[k] == m.v1Data[k])
+//@   loop 1:
+//@     invariant copied: forall k string :: seen(k) ==> has(finalV1Data, k) && finalV1Data[k] == m.v1Data[k]
+//@     invariant nothing_else: forall k string :: has(finalV1Data, k) ==> seen(k)
+//@     invariant fresh(finalV1Data) && finalV1Data != nil
+
+//@ func Mesh.SetFloat2Attribute
+//@   props C10 C01 C03
+//@   returns r
+//@   ensures fresh_map: fresh(r.v2Data)
+//@   ensures others_same: r.v1Data == m.v1Data && r.v3Data == m.v3Data && r.v4Data == m.v4Data && r.indices == m.indices && r.materials == m.materials && r.topology == m.topology
+//@   ensures entry: len(data) > 0 ==> has(r.v2Data, attr) && r.v2Data[attr] == data
+//@   ensures removed: len(data) == 0 ==> !has(r.v2Data, attr)
+//@   ensures rest: forall k string :: k != attr ==> (has(r.v2Data, k) <==> has(m.v2Data, k)) && (has(m.v2Data, k) ==> r.v2Data[k] == m.v2Data[k])
+//@   loop 1:
+//@     invariant copied: forall k string :: seen(k) ==> has(finalV2Data, k) && finalV2Data[k] == m.v2Data[k]
+//@     invariant nothing_else: forall k string :: has(finalV2Data, k) ==> seen(k)
+//@     invariant fresh(finalV2Data) && finalV2Data != nil
+
+//@ func Mesh.SetFloat3Attribute
+//@   props C10 C01 C03
+//@   returns r
+//@   ensures fresh_map: fresh(r.v3Data)
+//@   ensures others_same: r.v1Data == m.v1Data && r.v2Data == m.v2Data && r.v4Data == m.v4Data && r.indices == m.indices && r.materials == m.materials && r.topology == m.topology
+//@   ensures entry: len(data) > 0 ==> has(r.v3Data, attr) && r.v3Data[attr] == data
+//@   ensures removed: len(data) == 0 ==> !has(r.v3Data, attr)
+//@   ensures rest: forall k string :: k != attr ==> (has(r.v3Data, k) <==> has(m.v3Data, k)) && (has(m.v3Data, k) ==> r.v3Data[k] == m.v3Data[k])
+//@   loop 1:
+//@     invariant copied: forall k string :: seen(k) ==> has(finalV3Data, k) && finalV3Data[k] == m.v3Data[k]
+//@     invariant nothing_else: forall k string :: has(finalV3Data, k) ==> seen(k)
+//@     invariant fresh(finalV3Data) && finalV3Data != nil
+
+//@ func Mesh.SetFloat4Attribute
+//@   props C10 C01 C03
+//@   returns r
+//@   ensures fresh_map: fresh(r.v4Data)
+//@   ensures others_same: r.v1Data == m.v1Data && r.v2Data == m.v2Data && r.v3Data == m.v3Data && r.indices == m.indices && r.materials == m.materials && r.topology == m.topology
+//@   ensures entry: len(data) > 0 ==> has(r.v4Data, attr) && r.v4Data[attr] == data
+//@   ensures removed: len(data) == 0 ==> !has(r.v4Data, attr)
+//@   ensures rest: forall k string :: k != attr ==> (has(r.v4Data, k) <==> has(m.v4Data, k)) && (has(m.v4Data, k) ==> r.v4Data[k] == m.v4Data[k])
+//@   loop 1:
+//@     invariant copied: forall k string :: seen(k) ==> has(finalV4Data, k) && finalV4Data[k] == m.v4Data[k]
+//@     invariant nothing_else: forall k string :: has(finalV4Data, k) ==> seen(k)
+//@     invariant fresh(finalV4Data) && finalV4Data != nil
+
+//@ func Mesh.ModifyFloat1Attribute
+//@   props C10 C03
+//@   callback f: pure
+//@   returns r
+//@   ensures same_length: len(r.v1Data[atr]) == len(m.v1Data[atr])
+//@   ensures elementwise: forall k int :: 0 <= k && k < len(m.v1Data[atr]) ==> r.v1Data[atr][k] == f(k, m.v1Data[atr][k])
+//@   loop 1:
+//@     invariant bounds: 0 <= $i && $i <= len(oldData) && len(modified) == len(oldData) && fresh(modified) && oldData == m.v1Data[atr]
+//@     invariant done: forall k int :: 0 <= k && k < $i ==> modified[k] == f(k, oldData[k])
+
+//@ func Mesh.ModifyFloat1AttributeParallelWithPoolSize$1
+//@   props C10
+//@   callback f: pure
+//@   modifies modified
+//@   footprint start .. start + size
+//@   requires 0 <= start && 0 <= size && start + size <= len(modified) && len(modified) == len(oldData)
+//@   requires ref(modified) != ref(oldData) && off(modified) == 0
+//@   ensures in_range: forall k int :: start <= k && k < start + size ==> modified[k] == f(k, oldData[k])
+//@   ensures outside_untouched: forall k int :: 0 <= k && k < len(modified) && !(start <= k && k < start + size) ==> modified[k] == old(modified[k])
+//@   loop 1:
+//@     invariant bounds: start <= i && i <= end
+//@     invariant done: forall k int :: start <= k && k < i ==> modified[k] == f(k, oldData[k])
+//@     invariant outside_untouched: forall k int :: 0 <= k && k < len(modified) && !(start <= k && k < i) ==> modified[k] == old(modified[k])
+
+//@ func Mesh.ModifyFloat1AttributeParallelWithPoolSize
+//@   props C10
+//@   forkjoin wg
+//@   callback f: pure
+//@   requires forall k int :: forked(k) == 0
+//@   returns r
+//@   ensures same_length: len(r.v1Data[atr]) == len(m.v1Data[atr])
+//@   ensures elementwise: forall k int :: 0 <= k && k < len(m.v1Data[atr]) ==> r.v1Data[atr][k] == f(k, m.v1Data[atr][k])
+//@   loop 1:
+//@     invariant bounds: 0 <= i && i <= size && size >= 2
+//@     invariant partition: workSize >= 0 && workSize * size <= len(oldData) && oldData == m.v1Data[atr]
+//@     invariant target: len(modified) == len(oldData) && fresh(modified) && off(modified) == 0
+//@     invariant done: forall k int :: 0 <= k && k < ((i == size) ? len(oldData) : workSize * i) ==> modified[k] == f(k, oldData[k])
+//@     invariant forked: forall k int :: forked(k) == visitedOnce(k, 0, (i == size) ? len(oldData) : workSize * i)
+
+//@ func Mesh.ModifyFloat2Attribute
+//@   props C10 C03
+//@   callback f: pure
+//@   returns r
+//@   ensures same_length: len(r.v2Data[atr]) == len(m.v2Data[atr])
+//@   ensures elementwise: forall k int :: 0 <= k && k < len(m.v2Data[atr]) ==> r.v2Data[atr][k] == f(k, m.v2Data[atr][k])
+//@   loop 1:
+//@     invariant bounds: 0 <= $i && $i <= len(oldData) && len(modified) == len(oldData) && fresh(modified) && oldData == m.v2Data[atr]
+//@     invariant done: forall k int :: 0 <= k && k < $i ==> modified[k] == f(k, oldData[k])
+
+//@ func Mesh.ModifyFloat2AttributeParallelWithPoolSize$1
+//@   props C10
+//@   callback f: pure
+//@   modifies modified
+//@   footprint start .. start + size
+//@   requires 0 <= start && 0 <= size && start + size <= len(modified) && len(modified) == len(oldData)
+//@   requires ref(modified) != ref(oldData) && off(modified) == 0
+//@   ensures in_range: forall k int :: start <= k && k < start + size ==> modified[k] == f(k, oldData[k])
+//@   ensures outside_untouched: forall k int :: 0 <= k && k < len(modified) && !(start <= k && k < start + size) ==> modified[k] == old(modified[k])
+//@   loop 1:
+//@     invariant bounds: start <= i && i <= end
+//@     invariant done: forall k int :: start <= k && k < i ==> modified[k] == f(k, oldData[k])
+//@     invariant outside_untouched: forall k int :: 0 <= k && k < len(modified) && !(start <= k && k < i) ==> modified[k] == old(modified[k])
+
+//@ func Mesh.ModifyFloat2AttributeParallelWithPoolSize
+//@   props C10
+//@   forkjoin wg
+//@   callback f: pure
+//@   requires forall k int :: forked(k) == 0
+//@   returns r
+//@   ensures same_length: len(r.v2Data[atr]) == len(m.v2Data[atr])
+//@   ensures elementwise: forall k int :: 0 <= k && k < len(m.v2Data[atr]) ==> r.v2Data[atr][k] == f(k, m.v2Data[atr][k])
+//@   loop 1:
+//@     invariant bounds: 0 <= i && i <= size && size >= 2
+//@     invariant partition: workSize >= 0 && workSize * size <= len(oldData) && oldData == m.v2Data[atr]
+//@     invariant target: len(modified) == len(oldData) && fresh(modified) && off(modified) == 0
+//@     invariant done: forall k int :: 0 <= k && k < ((i == size) ? len(oldData) : workSize * i) ==> modified[k] == f(k, oldData[k])
+//@     invariant forked: forall k int :: forked(k) == visitedOnce(k, 0, (i == size) ? len(oldData) : workSize * i)
+
+//@ func Mesh.ModifyFloat3Attribute
+//@   props C10 C03
+//@   callback f: pure
+//@   returns r
+//@   ensures same_length: len(r.v3Data[atr]) == len(m.v3Data[atr])
+//@   ensures elementwise: forall k int :: 0 <= k && k < len(m.v3Data[atr]) ==> r.v3Data[atr][k] == f(k, m.v3Data[atr][k])
+//@   loop 1:
+//@     invariant bounds: 0 <= $i && $i <= len(oldData) && len(modified) == len(oldData) && fresh(modified) && oldData == m.v3Data[atr]
+//@     invariant done: forall k int :: 0 <= k && k < $i ==> modified[k] == f(k, oldData[k])
+
+//@ func Mesh.ModifyFloat3AttributeParallelWithPoolSize$1
+//@   props C10
+//@   callback f: pure
+//@   modifies modified
+//@   footprint start .. start + size
+//@   requires 0 <= start && 0 <= size && start + size <= len(modified) && len(modified) == len(oldData)
+//@   requires ref(modified) != ref(oldData) && off(modified) == 0
+//@   ensures in_range: forall k int :: start <= k && k < start + size ==> modified[k] == f(k, oldData[k])
+//@   ensures outside_untouched: forall k int :: 0 <= k && k < len(modified) && !(start <= k && k < start + size) ==> modified[k] == old(modified[k])
+//@   loop 1:
+//@     invariant bounds: start <= i && i <= end
+//@     invariant done: forall k int :: start <= k && k < i ==> modified[k] == f(k, oldData[k])
+//@     invariant outside_untouched: forall k int :: 0 <= k && k < len(modified) && !(start <= k && k < i) ==> modified[k] == old(modified[k])
+
+//@ func Mesh.ModifyFloat3AttributeParallelWithPoolSize
+//@   props C10
+//@   forkjoin wg
+//@   callback f: pure
+//@   requires forall k int :: forked(k) == 0
+//@   returns r
+//@   ensures same_length: len(r.v3Data[atr]) == len(m.v3Data[atr])
+//@   ensures elementwise: forall k int :: 0 <= k && k < len(m.v3Data[atr]) ==> r.v3Data[atr][k] == f(k, m.v3Data[atr][k])
+//@   loop 1:
+//@     invariant bounds: 0 <= i && i <= size && size >= 2
+//@     invariant partition: workSize >= 0 && workSize * size <= len(oldData) && oldData == m.v3Data[atr]
+//@     invariant target: len(modified) == len(oldData) && fresh(modified) && off(modified) == 0
+//@     invariant done: forall k int :: 0 <= k && k < ((i == size) ? len(oldData) : workSize * i) ==> modified[k] == f(k, oldData[k])
+//@     invariant forked: forall k int :: forked(k) == visitedOnce(k, 0, (i == size) ? len(oldData) : workSize * i)
